@@ -11,6 +11,11 @@ token list and every fuel, by induction on the fuel.
 namespace HidVerif.Hid.Parse
 open HidVerif.Hid.Lex HidVerif.Gen
 
+/-- the class names a binary operator node can carry (levels 4 to 8 of the regenerated table) -/
+def binClasses : List String := ["Mul", "Div", "Mod", "Add", "Sub", "Lt", "Le", "Gt", "Ge", "Eq", "Ne", "And", "Or"]
+/-- the class names of the compound assignment operators -/
+def incClasses : List String := incOps.map Prod.snd
+
 inductive OkE : Nat → PExpr → Prop
   | int {ctx v} : OkE ctx (.int v)
   | char {ctx b} : OkE ctx (.char b)
@@ -23,7 +28,7 @@ inductive OkE : Nat → PExpr → Prop
   | index {ctx e i} : OkE ctx e → OkE ctx i → OkE ctx (.index e i)
   | un {ctx op e} : OkE ctx e → OkE ctx (.un op e)
   | is_ {ctx e t} : OkE ctx e → tgtOK t = true → OkE ctx (.is_ e t)
-  | bin {ctx op l r} : OkE ctx l → OkE ctx r → OkE ctx (.bin op l r)
+  | bin {ctx op l r} : OkE ctx l → OkE ctx r → op ∈ binClasses → OkE ctx (.bin op l r)
   | spec {ctx l r} : has ctx "YOU" = true → OkE (ctxSpec ctx) l → OkE (ctxSpec ctx) r → OkE ctx (.spec l r)
 
 /-! ## inversion of the parser combinators -/
@@ -81,6 +86,41 @@ theorem tokenIf_val {α : Type} {en : Ending} {f : Lexeme → Option α} {ts res
         subst h1; exact ⟨l, ha⟩
     · cases h
   · cases h
+
+theorem lookup_mem_snd {k : String} {v : String} : ∀ {l : List (String × String)}, l.lookup k = some v → v ∈ l.map Prod.snd
+  | [], h => by simp [List.lookup] at h
+  | (a, b) :: l, h => by
+    simp only [List.lookup] at h
+    split at h
+    · injection h with h; subst h; simp
+    · simp only [List.map_cons, List.mem_cons]; exact Or.inr (lookup_mem_snd h)
+
+theorem opTok_val {en : Ending} {ops : List (String × String)} {ts rest : List Lexeme} {cls : String} {l : Lexeme}
+    (h : opTok en ops ts = .val (cls, l) rest) : cls ∈ ops.map Prod.snd := by
+  unfold opTok at h
+  obtain ⟨l', hl'⟩ := tokenIf_val h
+  split at hl'
+  · rename_i n _
+    cases hf : ops.find? (fun (t, _) => "OpToken." ++ t == n) with
+    | none => simp [hf] at hl'
+    | some pr =>
+      simp [hf] at hl'
+      obtain ⟨rfl, _⟩ := hl'
+      exact List.mem_map.2 ⟨pr, List.mem_of_find?_eq_some hf, rfl⟩
+  · cases hl'
+
+theorem binOps_classes : ∀ L, 3 < L → ∀ cls ∈ (binOps L).map Prod.snd, cls ∈ binClasses
+  | 0, h | 1, h | 2, h | 3, h => by omega
+  | 4, _ => by decide
+  | 5, _ => by decide
+  | 6, _ => by decide
+  | 7, _ => by decide
+  | 8, _ => by decide
+  | L + 9, _ => by
+    intro cls h
+    have : binOps (L + 9) = [] := by
+      simp [binOps, HidVerif.Gen.exprLevels, List.lookup]
+    rw [this] at h; cases h
 
 theorem dataTypeTok_val {en : Ending} {ts rest : List Lexeme} {t : Ty} {l : Lexeme}
     (h : dataTypeTok en ts = .val (t, l) rest) : scalarTy t = true ∨ t = .empty := by
@@ -164,7 +204,7 @@ structure ExprIH (n : Nat) : Prop where
   x2 : ∀ ctx ts e rest, psExpr2 en n ctx ts = .val e rest → OkE ctx e
   x3 : ∀ ctx ts e rest, psExpr3 en n ctx ts = .val e rest → OkE ctx e
   bLevel : ∀ ctx L ts e rest, psBinLevel en n ctx L ts = .val e rest → OkE ctx e
-  bRest : ∀ ctx L e0 ts e rest, OkE ctx e0 → psBinRest en n ctx L e0 ts = .val e rest → OkE ctx e
+  bRest : ∀ ctx L e0 ts e rest, 3 < L → OkE ctx e0 → psBinRest en n ctx L e0 ts = .val e rest → OkE ctx e
   xTop : ∀ ctx ts e rest, psExpr en n ctx ts = .val e rest → OkE ctx e
 
 theorem exprIH_zero : ExprIH en 0 := by
@@ -178,7 +218,7 @@ theorem exprIH_zero : ExprIH en 0 := by
   · intro ctx ts e rest h; rw [psExpr2] at h; cases h
   · intro ctx ts e rest h; rw [psExpr3] at h; cases h
   · intro ctx L ts e rest h; rw [psBinLevel] at h; cases h
-  · intro ctx L e0 ts e rest _ h; rw [psBinRest] at h; cases h
+  · intro ctx L e0 ts e rest _ _ h; rw [psBinRest] at h; cases h
   · intro ctx ts e rest h; rw [psExpr] at h; cases h
 
 theorem commaList_succ {n : Nat} (ih : ExprIH en n) :
@@ -315,19 +355,23 @@ theorem binLevel_succ {n : Nat} (ih : ExprIH en n) :
   · rw [if_pos h3] at h; exact ih.x3 ctx ts e rest h
   · rw [if_neg h3] at h
     obtain ⟨e0, m1, h1, h2⟩ := bind_val h
-    exact ih.bRest ctx L e0 m1 e rest (ih.bLevel ctx (L - 1) ts e0 m1 h1) h2
+    exact ih.bRest ctx L e0 m1 e rest (by omega) (ih.bLevel ctx (L - 1) ts e0 m1 h1) h2
 
 theorem binRest_succ {n : Nat} (ih : ExprIH en n) :
-    ∀ ctx L e0 ts e rest, OkE ctx e0 → psBinRest en (n + 1) ctx L e0 ts = .val e rest → OkE ctx e := by
-  intro ctx L e0 ts e rest h0 h
+    ∀ ctx L e0 ts e rest, 3 < L → OkE ctx e0 → psBinRest en (n + 1) ctx L e0 ts = .val e rest → OkE ctx e := by
+  intro ctx L e0 ts e rest hL h0 h
   rw [psBinRest] at h
-  obtain ⟨op, m1, _, h2⟩ := bind_val h
+  obtain ⟨op, m1, hop, h2⟩ := bind_val h
   cases op with
   | none => obtain ⟨rfl, _⟩ := pure_val h2; exact h0
   | some o =>
     obtain ⟨cls, l⟩ := o
     obtain ⟨r, m2, h3, h4⟩ := bind_val h2
-    exact ih.bRest ctx L _ m2 e rest (.bin h0 (ih.bLevel ctx (L - 1) m1 r m2 (expect_val h3))) h4
+    have hcls : cls ∈ binClasses := by
+      rcases opt_val hop with ⟨h0', _⟩ | ⟨a, ha, hp⟩
+      · cases h0'
+      · cases ha; exact binOps_classes L hL _ (opTok_val hp)
+    exact ih.bRest ctx L _ m2 e rest hL (.bin h0 (ih.bLevel ctx (L - 1) m1 r m2 (expect_val h3)) hcls) h4
 
 theorem expr0_succ {n : Nat} (ih : ExprIH en n) :
     ∀ ctx ts e rest, psExpr0 en (n + 1) ctx ts = .val e rest → OkE ctx e := by
@@ -434,7 +478,7 @@ inductive OkS : Nat → PStmt → Prop
   | decl {ctx n t c init} : OkE ctx init → tyOK t = true → OkS ctx (.decl n t c init)
   | vla {ctx n t c len} : OkE ctx len → scalarTy t = true → OkS ctx (.vla n t c len)
   | assign {ctx l r} : OkE ctx l → OkE ctx r → OkS ctx (.assign l r)
-  | incassign {ctx l r op} : OkE ctx l → OkE ctx r → OkS ctx (.incassign l r op)
+  | incassign {ctx l r op} : OkE ctx l → OkE ctx r → op ∈ incClasses → OkS ctx (.incassign l r op)
   | ret {ctx eo} : (∀ e, eo = some e → OkE ctx e) → OkS ctx (.ret eo)
   | brk {ctx} : has ctx "LOOP" = true → OkS ctx .brk
   | cont {ctx} : has ctx "LOOP" = true → OkS ctx .cont
@@ -485,10 +529,21 @@ theorem psAssignment_sound (fuel ctx : Nat) (ts : List Lexeme) (s : PStmt) (rest
       obtain ⟨rfl, _⟩ := pure_val h5
       exact .assign ha ((exprIH en fuel).xTop ctx m2 r m3 (expect_val h4))
     | none =>
-      obtain ⟨⟨cls, l⟩, m3, _, h4⟩ := bind_val h3
+      obtain ⟨⟨cls, l⟩, m3, hcl, h4⟩ := bind_val h3
       obtain ⟨r, m4, h5, h6⟩ := bind_val h4
       obtain ⟨rfl, _⟩ := pure_val h6
-      exact .incassign ha ((exprIH en fuel).xTop ctx m3 r m4 (expect_val h5))
+      have hcls : cls ∈ incClasses := by
+        obtain ⟨l', hl'⟩ := tokenIf_val hcl
+        split at hl'
+        · rename_i n _
+          cases hn : incOps.lookup n with
+          | none => simp [hn] at hl'
+          | some c =>
+            simp [hn] at hl'
+            obtain ⟨rfl, _⟩ := hl'
+            exact lookup_mem_snd hn
+        · cases hl'
+      exact .incassign ha ((exprIH en fuel).xTop ctx m3 r m4 (expect_val h5)) hcls
   · simp only [Bool.not_eq_true] at hasg
     simp only [hasg, Bool.not_false, if_true] at h2
     exact (fail_val h2).elim
@@ -934,7 +989,7 @@ theorem rulesE_of_ok {c : Nat} {e : PExpr} (h : OkE c e) : ∀ p, Rel c p = true
   | index _ _ ih1 ih2 => intro p hr; exact .index (ih1 p hr) (ih2 p hr)
   | un _ ih => intro p hr; exact .un (ih p hr)
   | is_ _ _ ih => intro p hr; exact .is_ (ih p hr)
-  | bin _ _ ih1 ih2 => intro p hr; exact .bin (ih1 p hr) (ih2 p hr)
+  | bin _ _ _ ih1 ih2 => intro p hr; exact .bin (ih1 p hr) (ih2 p hr)
   | spec hy _ _ ih1 ih2 =>
     intro p hr
     have hf := rel_facts hr
@@ -947,7 +1002,7 @@ theorem rulesS_of_ok {c : Nat} {s : PStmt} (h : OkS c s) : ∀ p, Rel c p = true
   | decl he _ => intro p hr; exact .decl (rulesE_of_ok he p hr)
   | vla he _ => intro p hr; exact .vla (rulesE_of_ok he p hr)
   | assign h1 h2 => intro p hr; exact .assign (rulesE_of_ok h1 p hr) (rulesE_of_ok h2 p hr)
-  | incassign h1 h2 => intro p hr; exact .incassign (rulesE_of_ok h1 p hr) (rulesE_of_ok h2 p hr)
+  | incassign h1 h2 _ => intro p hr; exact .incassign (rulesE_of_ok h1 p hr) (rulesE_of_ok h2 p hr)
   | ret he => intro p hr; exact .ret (fun e h => rulesE_of_ok (he e h) p hr)
   | brk hl => intro p hr; exact .brk (by rw [← (rel_facts hr).2.2.2.2]; exact hl)
   | cont hl => intro p hr; exact .cont (by rw [← (rel_facts hr).2.2.2.2]; exact hl)
